@@ -194,11 +194,16 @@ def boxParams (code : Code) (st : MSt) (fr : Frame) : List Nat → MSt × Frame
 
 def truncate (fr : Frame) (n : Nat) : Frame := { fr with slots := fr.slots.extract 0 n }
 
+/-- Laythe numbers are f64: integer arithmetic is exact only up to 2^53.  A result beyond that is outside the fragment
+(`fail:range`: the run is not judged), so that the unbounded integers of this interpreter never disagree with the VM for
+a reason that has nothing to do with scoping. -/
+def inRange (r : Int) : MCtl := if r.natAbs ≤ 9007199254740992 then .norm (.num r) else .fail "range"
+
 def arith (k : OpKind) (a b : MVal) : MCtl :=
   match k, a, b with
-  | .add, .num x, .num y => .norm (.num (x + y))
-  | .sub, .num x, .num y => .norm (.num (x - y))
-  | .mul, .num x, .num y => .norm (.num (x * y))
+  | .add, .num x, .num y => inRange (x + y)
+  | .sub, .num x, .num y => inRange (x - y)
+  | .mul, .num x, .num y => inRange (x * y)
   | .lt, .num x, .num y => .norm (.bool (x < y))
   | .eq, .num x, .num y => .norm (.bool (x == y))
   | .eq, .bool x, .bool y => .norm (.bool (x == y))
